@@ -490,6 +490,8 @@ def plan(tier, seed):
     fx = [f for f in corpora.musicxml_files() + corpora.mei_files() + corpora.kern_files()
           if "unfold" in os.path.basename(f) or "repeat" in os.path.basename(f) or "fine" in os.path.basename(f)]
     items += [["fixture", f] for f in fx]
+    # pieces of ordinary length inside a Score (the Score is copied before its parts are unfolded)
+    items += [["long", i] for i in range(2 if tier == "quick" else 10)]
     return items
 
 
@@ -509,6 +511,36 @@ def run_item(ctx, item):
             ctx.try_call(S.unfold_part_maximal, part, True)
             ctx.try_call(S.unfold_part_minimal, part)
             ctx.case(["fixture", item[1], part.id], True, cls="fixture", sample={"file": item[1].split("/")[-1]})
+        return
+    if item[0] == "long":
+        import sys
+        rng = ctx.rng("long", item[1])
+        n_meas = rng.choice([1500, 2500]) if item[1] < 2 else rng.choice([1200, 3000, 6000])
+        part = S.Part("P1", "long", quarter_duration=2)
+        part.add(S.TimeSignature(4, 4), 0)
+        for m in range(n_meas):
+            part.add(S.Measure(number=m + 1), 8 * m, 8 * m + 8)
+            for j in range(4):
+                part.add(S.Note(rng.choice("CDEFGAB"), 4, id=f"n{m}_{j}", voice=1, staff=1), 8 * m + 2 * j, 8 * m + 2 * j + 2)
+        r0 = rng.randrange(1, n_meas // 2)
+        r1 = rng.randrange(r0 + 1, n_meas)
+        part.add(S.Repeat(), 8 * r0, 8 * r1)
+        sc = S.Score([part], id="long")
+        limit0 = sys.getrecursionlimit()
+        update_ids = rng.random() < 0.5
+        ok, umax = ctx.try_call(S.unfold_part_maximal, part, update_ids)
+        ok5, usc = ctx.try_call(S.unfold_part_maximal, sc, update_ids)
+        ok6, usm = ctx.try_call(S.unfold_part_minimal, sc)
+        tab = lambda p_: sorted((int(o.start.t), int(o.end.t), o.id) for o in registered(p_) if isinstance(o, S.GenericNote))  # noqa
+        ctx.check(2)
+        if ok and ok5 and tab(usc.parts[0]) != tab(umax):
+            ctx.violation("score-argument-unfolds-differently-from-its-part", f"long piece: {len(tab(usc.parts[0]))} notes vs {len(tab(umax))} for the part alone", None)
+        if ok5 and len(tab(usc.parts[0])) != 4 * (n_meas + r1 - r0):
+            ctx.violation("unfolded-length-wrong", f"long piece of {n_meas} bars with bars {r0}..{r1} repeated: {len(tab(usc.parts[0]))} notes", None)
+        if sys.getrecursionlimit() != limit0:
+            ctx.violation("recursion-limit-left-changed", f"sys.getrecursionlimit() {limit0} before unfolding a Score, {sys.getrecursionlimit()} after", {"bars": n_meas})
+            sys.setrecursionlimit(limit0)
+        ctx.case(["long", item[1]], True, cls="long-piece-in-a-score", sample={"bars": n_meas, "repeat": [r0, r1]})
         return
     rng = ctx.rng("gen", item[1])
     part, meta = build(rng)
